@@ -497,6 +497,19 @@ class UpdateCollection(Message):
                     withdraws = b''
                 mp_reach = mprnlri
 
+            if include_withdraw and mp_reach and withdraw_nlris:
+                # the first MP_UNREACH_NLRI shares its message with the last MP_REACH_NLRI: when what that one
+                # left is too small for a single withdrawal ('NLRI too large' although a new message has room)
+                # the MP_REACH_NLRI goes out on its own
+                needed = 4 + 3 + max(len(nlri.pack_nlri(negotiated)) for nlri in withdraw_nlris)
+                if needed > msg_size - len(withdraws + announced + mp_reach):
+                    yield self._message(
+                        UpdateCollection.prefix(withdraws) + UpdateCollection.prefix(attr + mp_reach) + announced
+                    )
+                    mp_reach = b''
+                    announced = b''
+                    withdraws = b''
+
             if include_withdraw:
                 for mpurnlri in mp_withdraw.packed_unreach_attributes(
                     negotiated,
